@@ -63,6 +63,10 @@ CLAIMED = {
             "model-based: schemas with generated callback placement (declared or registered by schema path) x texts x every choice of the failing invocation; exact invocation log, verdict and tree compared with the language model; veto/rewrite of by-name setters enumerated",
             "The model mirrors the code's extra validation calls at list/section close to predict invocation numbers.",
             "model-based property testing (Hypothesis) with exhaustive failing-invocation sweep per text"),
+    "C19": ("exploration", "5.C19",
+            "model-based: printer model (declaration order, once per instance, effective filter = own else inherited, depth, commented-out unset scalars, print callbacks) against cfg_print / cfg_print_indent / cfg_opt_print / cfg_opt_print_indent for generated schemas, states, filter placements and callback placements",
+            "Blanks outside quotes are cosmetic; multi-line annotations are not generated.",
+            "model-based property testing (Hypothesis) against a reference printer model"),
 }
 PENDING = {}
 props = [json.loads(l) for l in open(os.path.join(V, "properties.jsonl"))]
